@@ -270,6 +270,10 @@ func (m *PeerInfo) UnmarshalBinary(data []byte) error {
 	// skip the already read compact length bytes
 	buffer.Next(bytesRead)
 
+	if nameLength > uint64(buffer.Len()) {
+		return fmt.Errorf("app name length %d exceeds the remaining %d bytes", nameLength, buffer.Len())
+	}
+
 	nameBuffer := make([]byte, nameLength)
 	_, err = io.ReadFull(buffer, nameBuffer)
 	if err != nil {
